@@ -1785,6 +1785,32 @@ fn emit_cache_tie(out: &mut Out, c: &Cost, cap: usize) {
 const C16_FACTOR: u64 = 64;
 const C16_QUERY_FACTOR: u64 = 1024;
 
+/// Cost tie: the number of algorithm-body evaluations (hook H3 `Miss`) of every node in one fresh pass, against the
+/// tree-level evaluator's prediction (`evalgcost`: the real cache model + the leaf/block/flex/grid programs). Where the two
+/// agree, the cost of the pass is the cost of the model that the theorems are about; a pass whose cost the model does not
+/// predict is a difference in this case, so no known cost finding explains it.
+fn emit_cost_tie(out: &mut Out, d: &TreeDesc, avail: Size<AvailableSpace>, c: &Cost) {
+    if c.aborted || c.queries_exceeded || c.panicked.is_some() {
+        out.count("cost-tie:skipped-aborted");
+        return;
+    }
+    if c.misses > 40_000 {
+        out.count("cost-tie:skipped-too-many-evaluations");
+        return;
+    }
+    let mut miss = vec![0u64; c.nodes];
+    for (i, e) in &c.events {
+        if e.kind == vh::QueryKind::Miss {
+            miss[*i] += 1;
+        }
+    }
+    out.count("cost-tie:compared");
+    out.qa(
+        &format!("evalgcost {} {} {}", av(avail.width), av(avail.height), crate::evaltree::gline(d)),
+        &miss.iter().map(|x| x.to_string()).collect::<Vec<_>>().join(" "),
+    );
+}
+
 fn cost_of(d: &TreeDesc, avail: Size<AvailableSpace>) -> Cost {
     let mut t: TaffyTree<Ctx> = TaffyTree::new();
     t.disable_rounding();
@@ -1930,6 +1956,13 @@ fn chain_families(r: &mut Rng, n_random: usize) -> Vec<ChainFamily> {
             s.flex_grow = 1.0;
             s.flex_basis = length(0.0)
         }),
+        // margins that differ between the axes (the cross-axis and main-axis margin sums are not interchangeable)
+        ("margin-top", |s| s.margin.top = length(1.0)),
+        ("grow-margin-top", |s| {
+            s.flex_grow = 1.0;
+            s.margin.top = length(1.0)
+        }),
+        ("margin-left-pct", |s| s.margin.left = percent(0.125)),
     ];
     let avails = [
         ("min", Size { width: AvailableSpace::MinContent, height: AvailableSpace::MinContent }),
@@ -2080,6 +2113,7 @@ pub fn run_c16(cfg: &Cfg, out: &mut Out) -> String {
                 out.qa(&line, if ok { "ok" } else { "bad c16-measure-blowup" });
                 if c.nodes <= 60 {
                     emit_cache_tie(out, &c, 1500);
+                    emit_cost_tie(out, &d, avail, &c);
                 }
                 if !ok {
                     out.impl_violation(format!(
@@ -2131,6 +2165,9 @@ pub fn run_c16(cfg: &Cfg, out: &mut Out) -> String {
                 last_remisses = evicted_remisses(&c);
                 if d == 6 || d == 12 {
                     emit_cache_tie(out, &c, 3000);
+                }
+                if d == 4 || d == 9 {
+                    emit_cost_tie(out, &tree, f.avail, &c);
                 }
                 fam_max_miss = fam_max_miss.max(c.max_misses_per_node);
                 worst_chain_total_ratio = worst_chain_total_ratio.max(c.total as f64 / c.nodes as f64);
